@@ -258,6 +258,7 @@ type World struct {
 	CheckTree   bool // C13 tree oracle on audits
 	CheckFree   bool // C10 hooked oracle
 	CheckLedger bool // C15
+	AdvValues   bool // the generator plants root-record look-alikes in values
 	Trace       []Op
 	Aborted     bool // run ended early without a verdict
 	PanicsAlways bool
